@@ -76,7 +76,8 @@ if __name__ == "__main__":
     args = [a for a in sys.argv[1:] if not a.startswith("--")]
     groups = args or sorted(g for g in os.listdir(os.path.join(VERIF, "seeded_inbox")) if g.startswith("H"))
     for g in groups:
-        for i in (1, 2, 3, 4):
+        g, _, sel = g.partition(":")      # "H2:3,4" = only patches 3 and 4 of group H2
+        for i in ([int(x) for x in sel.split(",")] if sel else (1, 2, 3, 4)):
             try:
                 run(g, i, tests)
             except Exception as ex:
